@@ -142,8 +142,85 @@ def run(c, chk):
                          'parser state %d (%s) stores a value but %s: a comment written before this option sticks to a later one'
                          % (s, what, 'does not attach the pending annotation' if not attached else 'does not clear the pending annotation'),
                          witness=[tr.describe()])
+    pending_survives(c, chk, model)
+    marker_only(c, chk)
     attach_function(c, chk)
     printer_emits(c, chk)
+
+
+def pending_survives(c, chk, model):
+    """R15.6: the comment read before an option's name is still pending when the option's value is stored: no step of the
+    statement in between (the name - of a declared option or of a key created on the fly -, '=', '+=', '{') releases,
+    clears or replaces it.  (Where the name turns out to be undeclared and is skipped, the comment is dropped.)"""
+    chk.rule('R15.6', 'from the name of an option (declared, or created on the fly in a key=value section) to the store of its value no parser step releases or replaces the pending annotation')
+    nonnull = model.opt_nonnull_states()
+    n = 0
+    bad = None
+    for s, tok, trs in model.table():
+        for tr in trs:
+            if tr.kind != 'next' or tr.next_state not in nonnull or tr.calls('cfg_opt_setcomment'):
+                continue
+            if s in nonnull and tr.assumes('opt', False):
+                continue
+            n += 1
+            v = tr.next.get('comment')
+            freed = [e for e in tr.calls('free') if e.args and e.args[0] == ('p', 'comment')]
+            if (v is not None and v != ('p', 'comment')) or freed:
+                bad = bad or (s, tok, tr)
+    if bad is not None:
+        s, tok, tr = bad
+        chk.fail('R15.6', 'pending-dropped:state%d:%s' % (s, pm.TOKNAME.get(tok, tok)), c.where(model.fn, tr.path.last_ins.line if tr.path.last_ins is not None else None),
+                 'parser state %d on %s goes on to state %d (an option is being assigned) but has %s the pending annotation (%s): the comment written before this '
+                 'option never becomes its annotation' % (s, pm.TOKNAME.get(tok, tok), tr.next_state, 'released' if tr.calls('free') else 'replaced', ' && '.join(tr.cond()[-3:])),
+                 witness=[tr.describe()])
+    else:
+        chk.ok('R15.6', '%d steps inside an option\'s statement' % n, 'the pending annotation is untouched on each', sample=True)
+    chk.floor('R15.6 steps inside a statement', n, 10)
+
+
+def marker_only(c, chk):
+    """R15.7: the text of a one-line comment is what follows its marker (a run of '#', or of '/').  The action of such a rule
+    may therefore single out, at the start of the text, only the character that opened the comment: a comment whose text
+    starts with the OTHER marker character ("#/run/x.sock", "//#rrggbb") keeps that character"""
+    chk.rule('R15.7', 'the action of a one-line comment rule compares the text only with the rule\'s own marker character (nothing else is stripped from the start of the annotation)')
+    lex = c.lex
+    dfa = lex.dfa
+    n = 0
+    for sample in (b'# x', b'// x'):
+        r, ln = dfa.match('INITIAL', sample + b'\nz')
+        if r is None or ln != len(sample):
+            raise report.Broken('one-line comment %r is not matched by one rule' % sample)
+        marker = sample[0]
+        others = set()
+        where = None
+
+        def yy(v):
+            return sym.mentions(v, lambda x: x == ('g', '@cfg_yytext'))
+        for ap in lex.actions[r]:
+            for cn, t, ins in ap.path.assume:
+                if cn[0] != 'icmp':
+                    continue
+                for a, b in ((cn[2], cn[3]), (cn[3], cn[2])):
+                    if sym.is_const(b) and yy(a) and 0 < (b[1] & 0xff) < 256 and b[1] != 0:
+                        n += 1
+                        if (b[1] & 0xff) != marker:
+                            others.add(b[1] & 0xff)
+                            where = where or ins
+            for e in ap.events:
+                if e.kind == 'call' and e.name in ('strspn', 'strcspn', 'strchr', 'strpbrk', 'memchr') and e.args and yy(e.args[0]):
+                    n += 1
+                    s_ = e.args[1] if len(e.args) > 1 else None
+                    chars = set(s_[1].encode('latin-1')) if s_ is not None and s_[0] == 'str' else ({s_[1] & 0xff} if s_ is not None and sym.is_const(s_) else {0x100})
+                    if chars - {marker}:
+                        others |= chars - {marker}
+                        where = where or e.ins
+        if others:
+            chk.fail('R15.7', 'marker-strip:%s' % chr(marker), 'src/lexer.l:%d' % dfa.rule_line.get(r, 0),
+                     'the action of %s looks for %s at the start of the comment text, not only for its own marker %r: an annotation that begins with such a '
+                     'character loses it (and stays wrong after print and re-parse)' % (lex.rule_name(r), ', '.join(repr(chr(x)) if x < 256 else 'a non-constant set' for x in sorted(others)), chr(marker)))
+        else:
+            chk.ok('R15.7', lex.rule_name(r), 'text bytes are compared with %r only' % chr(marker), sample=True)
+    chk.floor('R15.7 comparisons of comment text with constants', n, 2)
 
 
 def check_comment_return(c, chk, lex, r, full, what):
